@@ -1207,6 +1207,14 @@ pub fn base_envx(ret: Option<Ty>) -> EnvX {
     funcs.push(Func { name: 7, non_default: 0, ret: plain(Layer::Other(0)), params: vec![] });
     funcs.push(Func { name: 8, non_default: 1, ret: i, params: vec![Param { io: Io::Out, ty: f3 }] });
     funcs.push(Func { name: 9, non_default: 1, ret: i, params: vec![Param { io: Io::InOut, ty: f }] });
+    // f10: parameters declared const (the signature holds them without the modifier), f11: a const matrix and a struct
+    funcs.push(Func { name: 10, non_default: 2, ret: i, params: vec![Param { io: Io::In, ty: cst(f) }, Param { io: Io::In, ty: cst(f3) }] });
+    funcs.push(Func {
+        name: 11,
+        non_default: 2,
+        ret: f,
+        params: vec![Param { io: Io::In, ty: cst(plain(Layer::Matrix(S_FLOAT, 2, 2))) }, Param { io: Io::In, ty: cst(plain(Layer::Other(0))) }],
+    });
     let kinds: Vec<char> = vars
         .iter()
         .map(|v| match v.layer {
@@ -1886,6 +1894,17 @@ pub fn run_ext(r: &mut Runner, rng: &mut Rng, args: &Args, out: &mut Out) {
                 r.progx_case(&env0, &body1(s_expr(tern(x.clone(), y.clone(), y.clone()))), "any", out);
             }
         }
+    }
+    // (x1c) functions whose parameters are declared const
+    for x in &operands {
+        for y in &operands {
+            k += 1;
+            if thorough || k % 7 == 0 {
+                r.progx_case(&env0, &body1(s_expr(call(10, vec![x.clone(), y.clone()]))), "any", out);
+                r.progx_case(&env0, &body1(s_expr(call(11, vec![x.clone(), y.clone()]))), "any", out);
+            }
+        }
+        r.progx_case(&env0, &body1(s_expr(call(11, vec![x.clone()]))), "any", out);
     }
     // (x2) subscripts: every variable and some composites, indexed by every operand
     for a in &operands {
